@@ -1,6 +1,7 @@
 package props
 
 import (
+	"bytes"
 	"fmt"
 	"math/rand"
 	"runtime"
@@ -44,6 +45,9 @@ type dvSim struct {
 	events []string
 	bad    string // set when the simulation itself failed (inconclusive)
 	nCmds  int
+	// advertisement Data already delivered, per (receiver, sender): copies of these may arrive
+	// again later (a retried fetch answered twice, a slow path)
+	seen map[[2]int][][]byte
 }
 
 func dvFace(a, b int) uint64 { return uint64(100 + 10*a + b) } // face at a towards b
@@ -285,7 +289,51 @@ func (s *dvSim) exchange(a, b int) bool {
 		return false
 	}
 	s.drain()
+	if s.seen == nil {
+		s.seen = map[[2]int][][]byte{}
+	}
+	k := [2]int{a, b}
+	if l := s.seen[k]; len(l) == 0 || !bytes.Equal(l[len(l)-1], raw) {
+		s.seen[k] = append(l, raw)
+		if len(s.seen[k]) > 6 {
+			s.seen[k] = s.seen[k][1:]
+		}
+	}
 	return true
+}
+
+// replayLate delivers late copies of advertisement Data that were already delivered once (older
+// sequence numbers and the current one) to their receivers, in PRNG order. Returns how many.
+func (s *dvSim) replayLate(r *rand.Rand) (int, bool) {
+	var keys [][2]int
+	for k := range s.seen {
+		keys = append(keys, k)
+	}
+	sort.Slice(keys, func(i, j int) bool { return keys[i][0]*100+keys[i][1] < keys[j][0]*100+keys[j][1] })
+	r.Shuffle(len(keys), func(i, j int) { keys[i], keys[j] = keys[j], keys[i] })
+	n := 0
+	for _, k := range keys {
+		A := s.nodes[k[0]]
+		if !A.alive {
+			continue
+		}
+		l := s.seen[k]
+		for t := 0; t < 2 && len(l) > 0; t++ {
+			raw := l[r.Intn(len(l))]
+			d, _, err := spec.Spec{}.ReadData(enc.NewBufferReader(append([]byte{}, raw...)))
+			if err != nil {
+				continue
+			}
+			s.events = append(s.events, fmt.Sprintf("late:r%d<-r%d", k[0], k[1]))
+			A.r.VerifAdvertDataHandler(d)
+			n++
+			if !s.quiesce() {
+				return n, false
+			}
+			s.drain()
+		}
+	}
+	return n, true
 }
 
 // expire makes router a consider neighbour b dead (what the dead-interval timer does).
